@@ -73,6 +73,14 @@ def run_c13(out, tier, seed, replay):
         cases.append(case)
         meta[cid] = dict(case=case, inputs=inputs, lm=lm, prog=p)
 
+    # ---- (0) the start-of-run protocol for a lattice relation with caller-made second rows (Reindex.tla, finding F19)
+    r1 = vlib.run_tlc("Reindex", "Reindex.cfg", workers=4, timeout=600, tags=())
+    vlib.tlc_ok(r1, "Reindex")
+    out.add_tlc(r1, "Reindex: rows of a lattice indexed in order, then everything re-derived: the indexed row of every key holds the join of all its rows")
+    r2 = vlib.run_tlc("Reindex", "Reindex_anyorder.cfg", workers=4, timeout=600, tags=())
+    if r2.violated != "IndexedRowIsJoin":
+        raise ToolError(f"negative control failed: Reindex with rows indexed in any order keeps IndexedRowIsJoin (violated={r2.violated})")
+    out.extra["reindex_negative_control"] = "rows indexed in any order (parallel macros before the repair of F19) violate IndexedRowIsJoin as expected"
     # ---- (a) histories with pushes between runs, programs without negation / aggregation / lattices
     tiny = []
     for p in mono:
@@ -147,7 +155,7 @@ def run_c13(out, tier, seed, replay):
                 "corpus programs without negation/aggregation tagged `life` (plus the lattice programs tagged `mono`, whose later strata read lattice values through upward-closed tests only - a non-monotone read such as copying the value is outside the property: TLC refutes IncrementalEqualsFresh for it at the model level; facts are pushed into plain relations only); (b) run;run;run on TLC-enumerated inputs of every corpus "
                 "program (serial and parallel). A case = (program, variant, history). Non-trivial = the final least model has derived tuples.")
     out.assumptions = ["pushed tuples are never already present (TLC only chooses tuples outside the current least model)",
-                       "lattice relations are not pushed into after a run"]
+                       "at most one row is ever pushed for a lattice key (a second pushed row for the same key is a duplicate made by the caller)"]
 
 
 def run_c14(out, tier, seed, replay):
